@@ -1,5 +1,6 @@
 import XmppModel.Prelude.Hex
 import XmppModel.Model.Sasl
+import XmppModel.Model.SaslGate
 /-! Driver module for C03 (line protocol: see harness/c03/c03.go). -/
 namespace XmppModel.Driver.C03
 open XmppModel XmppModel.Sasl
@@ -248,8 +249,34 @@ def handleConcC (users : List String) : Option String := do
     s!"{showBool r.authn} {r.err.toString} {joinList (r.sent.map showCSent)}"
   pure (" ; ".intercalate rs)
 
+/-- rows of the probe tables as lines -/
+def handleProbe : List String → Option String
+  | ["gate", _, _] => some s!"{saslNecessary} {saslProhibited}"
+  | ["gaterun", _, st, _] => do
+    let s ← st.toNat?
+    let a := allowed saslNecessary saslProhibited s
+    pure s!"{showBool a} {showBool a}"
+  | ["gs2", kind, cm, adv] => do
+    let k ← kind.toNat?
+    let c ← decNames cm
+    let a ← decNames adv
+    let r := gs2Row k c a
+    pure s!"{if r.1 == "-" then "-" else encName r.1} {r.2}"
+  | ["opts", role, kind, adv] => do
+    let k ← kind.toNat?
+    let a ← decNames adv
+    let ((tls, ver, uq), remote, (u, p, i)) ← optsRow role k a
+    let hx (x : String) := if x.isEmpty then "-" else hexEncodeStr x
+    let uqb : Bytes := uq.map fun n => UInt8.ofNat n
+    pure s!"{showBool tls} {ver} {if uqb.isEmpty then "-" else hexEncode uqb} {joinList (remote.map encName)} {hx u}/{hx p}/{hx i}"
+  | _ => none
+
 def handle (args : List String) : Option String :=
   match args with
+  | "gate" :: _ => handleProbe args
+  | "gaterun" :: _ => handleProbe args
+  | "gs2" :: _ => handleProbe args
+  | "opts" :: _ => handleProbe args
   | ["cli", cm, adv, steps, peer] => handleCli "-" "-" cm adv steps peer
   | ["clis", cm, adv, steps, peer] => handleCli "-" "-" cm adv steps peer
   | ["clie", budget, cancel, cm, adv, steps, peer] => handleCli budget cancel cm adv steps peer
